@@ -368,7 +368,7 @@ fn soup_case(bytes: &[u8]) -> (String, usize) {
     (text, cursor)
 }
 
-fn soup_outcome(ctx: &Ctx, bytes: &[u8]) -> Outcome {
+pub fn soup_outcome(ctx: &Ctx, bytes: &[u8]) -> Outcome {
     let (text, cursor) = soup_case(bytes);
     let toks = sut_tokens(&text);
     let v = check_one(&text, &toks, cursor, "|soup");
@@ -396,9 +396,19 @@ fn soup_outcome(ctx: &Ctx, bytes: &[u8]) -> Outcome {
     }
 }
 
+/// Entry point for the coverage-guided fuzz target: arbitrary text + cursor,
+/// tokenised by the SUT's scanner.
+pub fn fuzz_text(text: &str, cursor: usize) -> Option<(String, String)> {
+    let toks = sut_tokens(text);
+    check_one(text, &toks, cursor, "|fuzz").fail
+}
+
 impl Prop for C20 {
     fn id(&self) -> &'static str {
         "C20"
+    }
+    fn fuzz_stage(&self) -> Option<(&'static str, u64, usize)> {
+        Some(("highlight", 3_000_000, 128))
     }
     fn rule(&self) -> &'static str {
         "exhaustive: all strings of <= L lexemes over { ( ) [ ] #( \" ; newline space a #\\( } (L=5 quick, L=7 thorough) x every cursor 0..=bytes+2, tokenised by the harness' own tokenizer; random: Unicode token soup with random cursors. A case (text, cursor) is non-trivial when the text has >= 2 bracket tokens and the cursor is on or just after one; distinct by (text, cursor)."
@@ -457,6 +467,18 @@ impl Prop for C20 {
     fn replay(&self, ctx: &Ctx, kind: &str, payload: &Value) -> Outcome {
         match kind {
             "soup" => soup_outcome(ctx, &unhex(payload["bytes"].as_str().unwrap_or(""))),
+            "fuzz:highlight" => {
+                let data = unhex(payload["bytes"].as_str().unwrap_or(""));
+                if data.len() < 2 {
+                    return Outcome::Discard;
+                }
+                let text = String::from_utf8_lossy(&data[2..]).to_string();
+                let cursor = ((data[0] as usize) << 8 | data[1] as usize) % (text.len() + 4);
+                match fuzz_text(&text, cursor) {
+                    Some((sig, detail)) => Outcome::fail(sig, detail, json!({"text": text, "cursor": cursor})),
+                    None => Outcome::Pass,
+                }
+            }
             _ => {
                 let text = payload["text"].as_str().unwrap_or("").to_string();
                 let cursor = payload["cursor"].as_u64().unwrap_or(0) as usize;
